@@ -197,6 +197,8 @@ func c09Explore(c *Ctx, stream string) {
 		c09Core(c, stream)
 	case "symbolize":
 		c09Symbolize(c)
+	case "matrix-session-0", "matrix-session-1", "matrix-session-2", "matrix-cli", "matrix-web":
+		c09Matrix(c, stream)
 	case "session-real":
 		for k := 0; k < c.Budget(400, 20000); k++ {
 			p := c09Profile(r, false)
